@@ -88,8 +88,21 @@ ITER = 'osmium::io::InputIterator'
 PRODUCER = {U.BUF: PARSER, U.STR: RTM}
 
 
+NORETURN = ('__assert_fail', '__assert_perror_fail', '__assert', 'abort', 'std::abort', 'std::terminate', 'exit', '_Exit', 'std::exit')
+
+
 def _exit_t(e):
     return isinstance(e, tuple) and e[0] == 'exit'
+
+
+def _abnormal(fn, e):
+    """Element that ends the path abnormally: a throw, or a call that does not return (failed assert, abort)."""
+    n = fn.nodes.get(e) if not isinstance(e, tuple) else None
+    if n is None:
+        return False
+    if n.get('k') == 'throw':
+        return True
+    return n.get('k') == 'call' and (n.get('q') or n.get('name') or '') in NORETURN
 
 
 def _dedupe(fns):
@@ -176,61 +189,81 @@ def rule_producers(fb, R):
     if nsites == 0:
         R.broken('no enqueue on a queue of futures found on the reader side')
 
-    # per thread: which queues can be fed from it
+    # per thread: which queues can be fed from it.  Thread entries are found by role (argument of a thread construction).
     starts = thread_starts(fb)
-    want = {READER + '::parser_thread': {U.BUF}, RTM + '::run_in_thread': {U.STR}, POOL + '::worker_thread': set()}
-    seen_entries = set()
+    entries = {}
     for s in starts:
         for ent in s['entries']:
-            if ent.q not in want:
-                continue
-            seen_entries.add(ent.q)
-            _thread_enqueues(fb, R, [ent], ent.q, want[ent.q], ent.site)
-    for q in want:
-        if q not in seen_entries:
-            R.broken('thread entry %s is not started anywhere (thread_starts)' % q)
-    # consumer side: the Reader's own methods (everything but the static thread function)
-    cons = [f for f in fb.fns_of_class(READER) if f.has_cfg and f.q != READER + '::parser_thread'] if hasattr(fb, 'fns_of_class') else \
-        [f for f in fb.functions if f.cls == READER and f.has_cfg and not f.is_lambda and f.q != READER + '::parser_thread']
+            entries.setdefault(ent.q, (ent, []))[1].append(s)
+    if not entries:
+        R.broken('no thread start found on the reader side')
+        return
+    feeds = {}
+    for q, (ent, _ss) in sorted(entries.items()):
+        seen = U.reach(fb, [ent], 14)
+        feeds[q] = (_pushed_elems(seen), seen)
+    for e in sorted(PRODUCER):
+        prods = [q for q in feeds if e in feeds[q][0]]
+        key = 'Queue<std::future<%s>>#producer-thread' % e
+        if not prods:
+            R.broken('no thread entry reaches an enqueue on the queue of std::future<%s>' % e)
+            continue
+        extra = prods[1:]
+        if extra:
+            g, n = feeds[extra[0]][0][e]
+            R.bad('W2-thread-enqueues-only-its-queue', key, g.loc(n['id']),
+                  'two thread entry points can enqueue on the queue of std::future<%s>: %s and %s (%s); with two producers the queue order is '
+                  'no longer the file order' % (e, prods[0], extra[0], U.chain(feeds[extra[0]][1], g)))
+        else:
+            R.ok('W2-thread-enqueues-only-its-queue', key, entries[prods[0]][0].site, 'only %s (%d bodies reachable)' % (prods[0], len(feeds[prods[0]][1])))
+    # a thread that produces for one queue must not also feed the other one (parser thread <-> read thread)
+    for q in sorted(feeds):
+        es = sorted(e for e in feeds[q][0] if e in PRODUCER)
+        if len(es) > 1:
+            g, n = feeds[q][0][es[1]]
+            R.bad('W2-thread-enqueues-only-its-queue', q + '#feeds-one-queue', g.loc(n['id']),
+                  'thread entry %s enqueues on both reader-side queues (%s)' % (q, ', '.join(es)))
+        elif es:
+            R.ok('W2-thread-enqueues-only-its-queue', q + '#feeds-one-queue', entries[q][0].site, es[0])
+    # consumer side: the Reader's own methods (everything but its thread entry functions) never enqueue
+    cons = [f for f in fb.functions if f.cls == READER and f.has_cfg and not f.is_lambda and f.q not in entries]
     if not cons:
         R.broken('no method bodies of %s found' % READER)
     else:
-        _thread_enqueues(fb, R, cons, READER + '#consumer-side', set(), cons[0].site)
+        seen = U.reach(fb, cons, 14)
+        pe = _pushed_elems(seen)
+        if pe:
+            e = sorted(pe)[0]
+            g, n = pe[e]
+            R.bad('W2-thread-enqueues-only-its-queue', READER + '#consumer-side', g.loc(n['id']),
+                  'the consumer side (%s methods) can enqueue on the queue of std::future<%s> itself (%s): elements would be interleaved with '
+                  'those of the producer thread' % (READER, e, U.chain(seen, g)))
+        else:
+            R.ok('W2-thread-enqueues-only-its-queue', READER + '#consumer-side', cons[0].site, '%d bodies reachable' % len(seen))
 
-    # W3: one parser thread per Reader
-    ps = [s for s in starts if any(e.q == READER + '::parser_thread' for e in s['entries'])]
-    if not ps:
-        R.broken('no thread start with entry %s::parser_thread found' % READER)
-    by_fn = {}
-    for s in ps:
-        by_fn.setdefault(s['fn'].q, []).append(s)
-    for q, lst in by_fn.items():
-        f = lst[0]['fn']
-        inloop = any(f.in_range(s['node']['id'], l['b'], l['e']) for s in lst for l in f.loops)
-        R.check(len(lst) == 1 and not inloop, 'W3-one-parser-thread', q + '#parser_thread', f.loc(lst[0]['node']['id']),
-                '%s starts the parser thread %d times%s: two producers would interleave their buffers on the osmdata queue'
-                % (q, len(lst), ' inside a loop' if inloop else ''))
+    # W3: the thread that produces Buffers is started once per Reader
+    for q in [q for q in feeds if U.BUF in feeds[q][0]]:
+        by_fn = {}
+        for s in entries[q][1]:
+            by_fn.setdefault(s['fn'].q, []).append(s)
+        for sq, lst in sorted(by_fn.items()):
+            f = lst[0]['fn']
+            inloop = any(f.in_range(s['node']['id'], l['b'], l['e']) for s in lst for l in f.loops)
+            R.check(len(lst) == 1 and not inloop, 'W3-one-parser-thread', '%s#%s' % (sq, q.rsplit('::', 1)[-1]), f.loc(lst[0]['node']['id']),
+                    '%s starts the parser thread %s %d times%s: two producers would interleave their buffers on the osmdata queue'
+                    % (sq, q, len(lst), ' inside a loop' if inloop else ''))
 
 
-def _thread_enqueues(fb, R, roots, key, allowed, site):
-    seen = U.reach(fb, roots, 14)
-    bad = None
+def _pushed_elems(seen):
+    """{element type: (Fn, call node)} of Queue<future<T>>::push calls in a reach() result."""
+    out = {}
     for (g, _p, _c) in seen.values():
         for n in g.all_nodes():
             if _is_call(n, U.QUEUE + '::push'):
                 e = U.queue_elem(n.get('rclsT', ''))
-                if e is not None and e not in allowed:
-                    bad = (g, n, e)
-                    break
-        if bad:
-            break
-    if bad:
-        g, n, e = bad
-        R.bad('W2-thread-enqueues-only-its-queue', key, g.loc(n['id']),
-              'code reachable from %s pushes on the queue of std::future<%s> (%s); allowed for this thread: %s'
-              % (key, e, U.chain(seen, g), sorted(allowed) or 'none'))
-    else:
-        R.ok('W2-thread-enqueues-only-its-queue', key, site, '%d bodies reachable' % len(seen))
+                if e is not None and e not in out:
+                    out[e] = (g, n)
+    return out
 
 
 def rule_pool_tasks(fb, R):
@@ -285,6 +318,8 @@ def _flows_to(fn, nid, stop_calls):
         if p in stop_calls:
             return p
         if k in ('wrap', 'icast'):
+            x = p
+        elif k == 'initlist' and len(n.get('args', [])) == 1:
             x = p
         elif k == 'construct' and (n.get('elidable') or n.get('copymove')) and len(n.get('args', [])) == 1:
             x = p
@@ -477,7 +512,7 @@ def rule_reader_read(fb, R, reader=READER):
                     e = fn.sn(n['rhs'])
                     if e is not None and e.get('vk') == 'enumconst' and e.get('q') != okay:
                         stores.add(_elem(fn, n['id']))
-            w = path_search(fn, eb['succs'][0], lambda e: e in eod_rets or _exit_t(e), lambda e: e in stores or fn.nodes.get(e, {}).get('k') == 'throw',
+            w = path_search(fn, eb['succs'][0], lambda e: e in eod_rets or _exit_t(e), lambda e: e in stores or _abnormal(fn, e),
                             from_block_start=True) if eb['succs'][0] is not None else ['end-of-data edge pruned']
             R.check(w is None and bool(eod_rets), 'R4-end-of-data-marks-eof', fn.q + '#end-of-data', fn.loc(eb['cond']),
                     'on the end-of-data branch of %s a path returns without storing a status other than %s into %s: a further read() would '
@@ -503,36 +538,35 @@ def rule_reader_read(fb, R, reader=READER):
             ok = R.check(w is None, 'R3-popped-nested-buffer-stashed', key3, fn.loc(P['id']),
                          'a path from the pop to a data return does not test has_nested_buffers() on the popped buffer: %s' % describe_path(fn, w))
             for tb in tests if ok else []:
-                s1 = s2 = None
-                for n in fn.all_nodes():
-                    lhs, rhs = _assign_from(fn, n)
-                    if lhs is None:
-                        continue
-                    if lhs[0] == 'field' and lhs[2] == bb and fn.root_var(rhs) == B:
-                        s1 = n
-                    if lhs == B and any(_is_call(fn.nodes[x], BUFFER + '::get_last_nested') and fn.is_this_member(fn.nodes[x].get('recv'), bb)
-                                        for x in fn.subtree(rhs)):
-                        if s1 is not None and fn.elem_dominates(s1['id'], n['id']) or s2 is None:
-                            s2 = n
-                # pick the S2 that S1 dominates
-                cands = []
-                for n in fn.all_nodes():
-                    lhs, rhs = _assign_from(fn, n)
-                    if lhs == B and rhs is not None and any(_is_call(fn.nodes[x], BUFFER + '::get_last_nested') and fn.is_this_member(fn.nodes[x].get('recv'), bb)
-                                                            for x in fn.subtree(rhs)):
-                        if s1 is not None and fn.elem_dominates(_elem(fn, s1['id']), _elem(fn, n['id'])):
-                            cands.append(n)
                 t_true = tb['succs'][0]
-                if s1 is None or not cands or t_true is None:
-                    R.bad('R3-popped-nested-buffer-stashed', key3, fn.loc(tb['cond']),
-                          'when the popped buffer has nested buffers %s must move it to %s and hand out %s.get_last_nested(); that sequence is missing'
-                          % (fn.q, bb, bb))
+                # S1: back buffer <- popped buffer, executed only when the test was true; S2: popped variable <- deepest nested buffer
+                # of the back buffer, after S1
+                s1 = None
+                for n in fn.all_nodes():
+                    lhs, rhs = _assign_from(fn, n)
+                    if lhs is not None and lhs[0] == 'field' and lhs[2] == bb and rhs is not None and fn.root_var(rhs) == B \
+                            and any(c == tb['cond'] and s for (c, s, _b) in guards_of(fn, n['id'])):
+                        s1 = n
+                s2 = []
+                for n in fn.all_nodes():
+                    lhs, rhs = _assign_from(fn, n)
+                    if s1 is not None and lhs == B and rhs is not None and fn.elem_dominates(_elem(fn, s1['id']), _elem(fn, n['id'])) and \
+                            any(_is_call(fn.nodes[x], BUFFER + '::get_last_nested') and fn.is_this_member(fn.nodes[x].get('recv'), bb)
+                                for x in fn.subtree(rhs)):
+                        s2.append(n)
+                if s1 is None or not s2 or t_true is None:
+                    helper = [n for n in _region_calls(fn, tb, True) if n.get('rcls') == reader]
+                    if helper:
+                        R.broken('%s: nested-buffer handling was moved into %s; shape not modelled' % (fn.q, helper[0]['q']))
+                    else:
+                        R.bad('R3-popped-nested-buffer-stashed', key3, fn.loc(tb['cond']),
+                              'when the popped buffer has nested buffers %s must move it to %s and hand out %s.get_last_nested(); that sequence '
+                              'is missing' % (fn.q, bb, bb))
                     continue
-                s2e = {_elem(fn, n['id']) for n in cands}
-                s1g = any(c == tb['cond'] and s for (c, s, b) in guards_of(fn, s1['id']))
-                w = path_search(fn, t_true, lambda e: e in dr or e == Pe or _exit_t(e), lambda e: e in s2e or fn.nodes.get(e, {}).get('k') == 'throw',
+                s2e = {_elem(fn, n['id']) for n in s2}
+                w = path_search(fn, t_true, lambda e: e in dr or e == Pe or _exit_t(e), lambda e: e in s2e or _abnormal(fn, e),
                                 from_block_start=True)
-                R.check(w is None and s1g, 'R3-popped-nested-buffer-stashed', key3, fn.loc(tb['cond']),
+                R.check(w is None, 'R3-popped-nested-buffer-stashed', key3, fn.loc(tb['cond']),
                         'a popped buffer with nested buffers can be returned / dropped without being moved to %s and unwound from its deepest '
                         'nested buffer: %s' % (bb, describe_path(fn, w)))
         # ---- R2b whole back buffer only without nested
@@ -540,7 +574,6 @@ def rule_reader_read(fb, R, reader=READER):
             lhs, rhs = _assign_from(fn, n)
             if lhs is None or rhs is None:
                 continue
-            rr = fn.sn(rhs)
             whole = fn.root_var(rhs)
             if whole is not None and whole[0] == 'field' and whole[2] == bb and lhs != whole and \
                     not any(fn.nodes[x].get('k') == 'call' and fn.nodes[x].get('q', '').startswith(BUFFER + '::') for x in fn.subtree(rhs)):
@@ -552,7 +585,6 @@ def rule_reader_read(fb, R, reader=READER):
                 R.check(ok, 'R2-whole-buffer-only-without-nested', fn.q + '#' + bb, fn.loc(n['id']),
                         '%s hands out %s as a whole although it may still have nested (older) buffers: they would be delivered after / inside '
                         'the newest one' % (fn.q, bb))
-            del rr
 
 
 def rule_last_nested_guarded(fb, R):
@@ -670,6 +702,72 @@ def rule_iterator(fb, R):
                     'the current buffer (otherwise the rest of the buffer is dropped)')
 
 
+def rule_iterator_refill(fb, R):
+    """I1: update_buffer() keeps reading only while the buffer just read has no item of the wanted type."""
+    fns = [f for f in _dedupe(fb.fns(ITER + '::update_buffer')) if f.has_cfg]
+    if not fns:
+        R.broken('%s::update_buffer not found' % ITER)
+    for fn in fns:
+        reads = [n for n in fn.all_nodes() if n.get('k') == 'call' and n.get('q', '').rsplit('::', 1)[-1] == 'read' and
+                 any(fn.in_range(n['id'], l['b'], l['e']) for l in fn.loops)]
+        key = fn.q + '#skip-loop'
+        if len(reads) != 1:
+            R.broken('%s: expected one read() call inside a loop, found %d' % (fn.q, len(reads)))
+            continue
+        re_ = _elem(fn, reads[0]['id'])
+        ok = False
+        for blk in fn.blocks.values():
+            if blk.get('termcls') not in ('DoStmt', 'WhileStmt', 'ForStmt') or 'cond' not in blk or len(blk['succs']) != 2:
+                continue
+            x = fn.sn(blk['cond'])
+            if x is None or x.get('k') != 'call' or x.get('op') not in ('==', '!='):
+                continue
+            if 'end()' not in fn.expr(blk['cond']):
+                continue
+            cont, leave = (blk['succs'][0], blk['succs'][1]) if x['op'] == '==' else (blk['succs'][1], blk['succs'][0])
+            again = cont is not None and path_search(fn, cont, lambda e: e == re_, lambda e: False, from_block_start=True) is not None
+            out = leave is None or path_search(fn, leave, lambda e: e == re_, lambda e: False, from_block_start=True) is None
+            if again and out:
+                ok = True
+        R.check(ok, 'I1-iterator-skips-only-empty-buffers', key, fn.loc(reads[0]['id']),
+                'update_buffer() must read another buffer exactly when the one just read has no item of the requested type (iter == end()); '
+                'otherwise buffers with data are discarded')
+
+
+def rule_end_marker(fb, R):
+    """R6: the end-of-data marker is the INVALID buffer, nothing else: a valid buffer without data (a block in which nothing was selected)
+    must not be mistaken for it."""
+    fns = [f for f in fb.fns(NS + 'at_end_of_data') if f.has_cfg and f.params and BUFFER in f.params[0]['tC']]
+    if not fns:
+        R.broken('%sat_end_of_data(const Buffer&) not found' % NS)
+    for fn in _dedupe(fns):
+        rets = [n for n in fn.all_nodes() if n.get('k') == 'return' and 'sub' in n]
+        ok = len(rets) == 1
+        if ok:
+            x = fn.sn(rets[0]['sub'])
+            ok = x is not None and x.get('k') == 'unop' and x['op'] == '!'
+            if ok:
+                c = fn.sn(x['sub'])
+                r = _recv_root(fn, c) if _is_call(c, BUFFER + '::(conv)') else None
+                ok = r is not None and r[0] == 'var' and r[1] == fn.params[0]['d']
+        R.check(ok, 'R6-end-marker-is-invalid-buffer', fn.q + '(Buffer)', fn.site,
+                'at_end_of_data(const Buffer&) must be exactly `!buffer` (validity): valid buffers without data occur whenever a block '
+                'contains nothing of the selected types, and reading must continue after them')
+    for fn in _dedupe(fb.fns(BUFFER + '::(conv)')):
+        if not fn.has_cfg or fn.ret != 'bool' and fn.retC != 'bool':
+            continue
+        rets = [n for n in fn.all_nodes() if n.get('k') == 'return' and 'sub' in n]
+        ok = len(rets) == 1
+        if ok:
+            x = fn.sn(rets[0]['sub'])
+            names = {fn.nodes[y].get('name') for y in fn.subtree(rets[0]['sub']) if fn.nodes[y].get('k') == 'member' and fn.nodes[y].get('field')}
+            rec = fb.record(BUFFER)
+            ptrs = {f['name'] for f in rec.fields if f['tC'].endswith('*')} if rec else set()
+            ok = bool(names) and names <= ptrs and x is not None and (x.get('k') == 'binop' and x['op'] == '!=' or x.get('k') == 'member')
+        R.check(ok, 'R6-end-marker-is-invalid-buffer', fn.q, fn.site,
+                'Buffer::operator bool must test the data pointer only (validity, not emptiness)')
+
+
 # ================================================================================================ nested buffers
 
 def _committed_field(fb):
@@ -774,11 +872,45 @@ def rule_nested_buffers(fb, R):
                 link_this = n
         ok = link_old is not None and link_this is not None and g.elem_dominates(_elem(g, link_old['id']), _elem(g, link_this['id']))
         if ok:
-            w = path_search(g, g.entry, _exit_t, lambda e: e == _elem(g, link_this['id']) or g.nodes.get(e, {}).get('k') == 'throw', from_block_start=True)
+            w = path_search(g, g.entry, _exit_t, lambda e: e == _elem(g, link_this['id']) or _abnormal(g, e), from_block_start=True)
             ok = w is None
         R.check(ok, 'B2-grow-internal-chains-older', g.q + '#' + nf, g.site,
                 'grow_internal() must first hang the existing chain (%s) below the buffer it splits off and then link that buffer as %s; '
                 'otherwise previously nested buffers are destroyed (blocks lost) or the order of the chain changes' % (nf, nf))
+
+    # ---- B4: moving / swapping a Buffer carries the nested chain along
+    def other_link(f, nid, pd):
+        """expression is <param pd>.<nf>"""
+        for y in f.subtree(nid):
+            ny = f.nodes[y]
+            if ny.get('k') == 'member' and ny.get('name') == nf:
+                r = f.root_var(ny['base'])
+                if r is not None and r[0] == 'var' and r[1] == pd:
+                    return True
+        return False
+    movers = [f for f in _dedupe(fb.fns(BUFFER + '::(ctor)') + fb.fns(BUFFER + '::operator=')) if f.has_cfg and f.params
+              and f.params[0]['tC'].replace('const ', '') == BUFFER + ' &&']
+    swaps = [f for f in _dedupe(fb.fns(BUFFER + '::swap')) if f.has_cfg and f.params]
+    if len(movers) < 2 or not swaps:
+        R.broken('%s: move constructor / move assignment / swap not found (%d, %d)' % (BUFFER, len(movers), len(swaps)))
+    for f in movers + swaps:
+        pd = f.params[0]['d']
+        ok = False
+        for n in f.all_nodes():
+            if n.get('k') == 'init' and n.get('name') == nf and isinstance(n.get('init'), int) and other_link(f, n['init'], pd):
+                ok = True
+            lhs, rhs = _assign_from(f, n)
+            if lhs is not None and lhs[0] == 'field' and lhs[2] == nf and rhs is not None and other_link(f, rhs, pd):
+                ok = True
+            if n.get('k') == 'call' and n.get('q', '').rsplit('::', 1)[-1] == 'swap' and len(n.get('args', [])) == 2:
+                r0 = f.root_var(n['args'][0])
+                r1 = f.root_var(n['args'][1])
+                if (r0 is not None and r0[0] == 'field' and r0[2] == nf and other_link(f, n['args'][1], pd)) or \
+                        (r1 is not None and r1[0] == 'field' and r1[2] == nf and other_link(f, n['args'][0], pd)):
+                    ok = True
+        R.check(ok, 'B4-move-keeps-nested-chain', '%s(%s)#%s' % (f.q, f.params[0]['tC'], nf), f.site,
+                '%s does not transfer %s: a buffer that travels through promise / future / queue (all by move) would lose its nested buffers '
+                '(blocks lost)' % (f.q, nf))
 
     # ---- B1
     for fn in _dedupe(fb.fns(BUFFER + '::get_last_nested')):
@@ -860,7 +992,7 @@ def rule_parser_flush(fb, R):
                 carriers = {_elem(fn, e) for e in enq
                             if any(fn.nodes[x].get('k') == 'var' and fn.nodes[x].get('d') == d for a in fn.nodes[e].get('args', []) if a is not None
                                    for x in fn.subtree(a))}
-                w = path_search(fn, _elem(fn, n['id']), _exit_t, lambda e: e in carriers or fn.nodes.get(e, {}).get('k') == 'throw')
+                w = path_search(fn, _elem(fn, n['id']), _exit_t, lambda e: e in carriers or _abnormal(fn, e))
                 R.check(bool(carriers) and w is None, 'F1-taken-nested-buffer-is-sent', key, fn.loc(n['id']),
                         'the buffer taken out with get_last_nested() is not sent to the output queue on every path (it is destroyed with '
                         'the local: blocks lost): %s' % describe_path(fn, w))
@@ -869,6 +1001,42 @@ def rule_parser_flush(fb, R):
                       'the buffer taken out with get_last_nested() does not flow into an enqueue on the output queue')
     if n1 == 0:
         R.broken('no get_last_nested() call in a parser class (ParserWithBuffer::flush_nested_buffer expected)')
+    # F4: a local Buffer that took over the contents of the parser's buffer member (swap / move) is enqueued on every path
+    rec = fb.record(PWB)
+    bf = _buffer_field(rec) if rec is not None else None
+    for fn in _dedupe(fb.functions):
+        if not fn.has_cfg or bf is None or U.owner_class(fb, fn) not in parser_h:
+            continue
+        takers = []            # (node, local decl id)
+        for n in fn.all_nodes():
+            if n.get('k') == 'call' and n.get('q', '').rsplit('::', 1)[-1] == 'swap':
+                ops = [a for a in ([n.get('recv')] if n.get('recv') is not None else []) + list(n.get('args', [])) if a is not None]
+                roots = [fn.root_var(a) for a in ops]
+                loc = [r for r in roots if r is not None and r[0] == 'var']
+                if len(ops) == 2 and any(r is not None and r[0] == 'field' and r[2] == bf for r in roots) and len(loc) == 1:
+                    takers.append((n, loc[0][1]))
+            elif n.get('k') == 'decl':
+                for v in n['vars']:
+                    if v['tC'] == BUFFER and isinstance(v.get('init'), int):
+                        r = fn.root_var(v['init'])
+                        if r is not None and r[0] == 'field' and r[2] == bf:
+                            takers.append((n, v['d']))
+            else:
+                lhs, rhs = _assign_from(fn, n)
+                if lhs is not None and lhs[0] == 'var' and rhs is not None and n.get('rcls', BUFFER) == BUFFER:
+                    r = fn.root_var(rhs)
+                    if r is not None and r[0] == 'field' and r[2] == bf and not any(
+                            fn.nodes[x].get('k') == 'call' and fn.nodes[x].get('q', '').startswith(BUFFER + '::') for x in fn.subtree(rhs)):
+                        takers.append((n, lhs[1]))
+        for (n, d) in takers:
+            enq = {m['id'] for m in fn.all_nodes() if _enqueuing(fb, fn, m, U.BUF, memo)}
+            carriers = {_elem(fn, e) for e in enq
+                        if any(fn.nodes[x].get('k') == 'var' and fn.nodes[x].get('d') == d for a in fn.nodes[e].get('args', []) if a is not None
+                               for x in fn.subtree(a))}
+            w = path_search(fn, _elem(fn, n['id']), _exit_t, lambda e: e in carriers or _abnormal(fn, e))
+            R.check(bool(carriers) and w is None, 'F4-swapped-out-buffer-is-sent', '%s#%s' % (fn.q, bf), fn.loc(n['id']),
+                    'a local buffer takes over the contents of %s in %s but is not enqueued on every path: the objects collected so far are '
+                    'destroyed with the local (lost): %s' % (bf, fn.q, describe_path(fn, w)))
     # F2
     pwb_h = {r.q for r in fb.derived_from(PWB)}
     if not pwb_h:
@@ -980,6 +1148,68 @@ def rule_entity_mask(fb, R, files=DECODER_FILES):
                       'be the selected subsequence of the file' % (kind, cls.rsplit('::', 1)[-1], fn.q, kind, v[1]))
 
 
+def rule_commit(fb, R, files=DECODER_FILES, xml=NS + 'XMLParser'):
+    """M5: an object that was built is committed on every normal path (uncommitted data is invisible to the consumer and is
+    overwritten / dropped when the buffer is handed over)."""
+    callers = _callers(fb, files)
+
+    def commits(f):
+        return {_elem(f, n['id']) for n in f.all_nodes() if _is_call(n, BUFFER + '::commit')}
+
+    def uncommitted_path(f, start):
+        cs = commits(f)
+        return path_search(f, start, _exit_t, lambda e: e in cs or _abnormal(f, e))
+
+    for fn in _dedupe(fb.functions):
+        if not fn.has_cfg or not fn.file.endswith(files):
+            continue
+        for (n, cls, kind) in _creation_sites(fn):
+            if n.get('k') != 'construct':
+                continue            # builders kept in members are finished elsewhere (XML: see below)
+            key = '%s#%s' % (fn.q, cls.rsplit('::', 1)[-1])
+            if uncommitted_path(fn, _elem(fn, n['id'])) is None:
+                R.ok('M5-created-object-committed', key, fn.loc(n['id']), 'committed in the creating function')
+                continue
+            sites = callers.get(fn.usr, [])
+            if not sites:
+                R.broken('%s builds a %s but neither commits it nor has a caller in the fact base' % (fn.q, kind))
+                continue
+            bad = None
+            for (g, c) in sites:
+                w = uncommitted_path(g, _elem(g, c['id']))
+                if w is not None:
+                    bad = (g, c, w)
+            if bad:
+                g, c, w = bad
+                R.bad('M5-created-object-committed', key, g.loc(c['id']),
+                      'the %s built by %s is not committed on every path after the call in %s (%s): it stays invisible and is lost when the '
+                      'buffer is handed over' % (kind, fn.q, g.q, describe_path(g, w)))
+            else:
+                R.ok('M5-created-object-committed', key, fn.loc(n['id']), 'committed after every call (%d call sites)' % len(sites))
+    rec = fb.record(xml)
+    if rec is None:
+        R.broken('record %s not found' % xml)
+        return
+    tops = {f['name']: U.OBJECT_BUILDERS[f['t'][len('std::unique_ptr<'):-1]] for f in rec.fields
+            if f['t'].startswith('std::unique_ptr<') and f['t'][len('std::unique_ptr<'):-1] in U.OBJECT_BUILDERS}
+    nreset = 0
+    for fn in _dedupe(fb.functions):
+        if not fn.has_cfg or U.owner_class(fb, fn) != xml:
+            continue
+        for n in fn.all_nodes():
+            if _is_call(n, 'std::unique_ptr::reset') and n.get('recv') is not None and \
+                    all(a is None or fn.nodes[a].get('defarg') for a in n.get('args', [])):
+                r = fn.sn(n['recv'])
+                if r is not None and r.get('k') == 'member' and r.get('name') in tops and fn.is_this_member(n['recv']):
+                    nreset += 1
+                    w = uncommitted_path(fn, _elem(fn, n['id']))
+                    R.check(w is None, 'M5-created-object-committed', '%s#%s' % (fn.q, r['name']), fn.loc(n['id']),
+                            'after finishing the %s builder (%s.reset()) %s can return without committing the buffer: %s'
+                            % (tops[r['name']], r['name'], fn.q, describe_path(fn, w)))
+    if nreset == 0:
+        R.broken('%s: no reset() of a top-level builder member found' % xml)
+
+
 def rule_xml_builders(fb, R, cls=NS + 'XMLParser'):
     rec = fb.record(cls)
     if rec is None:
@@ -1062,7 +1292,7 @@ def rule_pbf_fields(fb, R, files=PBF_FILES):
                     R.broken('%s: next() on %s is not a loop/branch condition' % (fn.q, v['name']))
                     ok = None
                     continue
-                w = path_search(fn, blk['succs'][0], lambda e: e in ne, lambda e: e in ce or fn.nodes.get(e, {}).get('k') == 'throw',
+                w = path_search(fn, blk['succs'][0], lambda e: e in ne, lambda e: e in ce or _abnormal(fn, e),
                                 from_block_start=True)
                 if w is not None:
                     ok = False
@@ -1193,10 +1423,13 @@ def all_rules(fb, R):
     rule_last_nested_guarded(fb, R)
     rule_wrapper_pop(fb, R)
     rule_iterator(fb, R)
+    rule_iterator_refill(fb, R)
+    rule_end_marker(fb, R)
     rule_nested_buffers(fb, R)
     rule_parser_flush(fb, R)
     rule_entity_mask(fb, R)
     rule_xml_builders(fb, R)
+    rule_commit(fb, R)
     rule_pbf_fields(fb, R)
     rule_read_meta(fb, R)
 
